@@ -1,399 +1,19 @@
-(** ReaderEnd: texts WITHOUT braces (coarse fragment texts).  The reader's look-ahead loop then runs off
-    the end of the text behind the last node: `rdx` points at the last character instead of behind it
-    (harmless: the bond order computed from it is never used), and a %nn marker that ends the text is
-    registered by the code behind the loop (fix fd2fb55).  Result: [reader_sim_lin_nobrace],
-    [reader_sim_wf_nobrace], [reader_sim_C04]. *)
+(** ReaderEnd: the reader component's simulation theorems in one place.
+    - [reader_sim_lin], [reader_sim_lin_nobrace]: flat strings (Reader/Lin.v), text with / without braces;
+    - [reader_sim_x], [reader_sim_x_nobrace]: flat items that close several branches (Reader/ReaderX.v);
+    - [reader_sim_grammar]: every well-formed AST without branch multiplier, printed with or without
+      braces (Reader/ReaderXAst.v);
+    - [reader_sim_C04]: the same in the shape other components use (the class argument is 0 for every
+      AST since fix 0460546 of read_cgsmiles: no defect class is left for C04). *)
 From Coq Require Import String.
 From Coq Require Import List Ascii ZArith Bool Lia.
-From CGV Require Import Base.PyBase Base.PyVal Base.NxGraph Base.PyGen Gen.ReaderGen Dialect.DialectImpl
-     Reader.ReaderImpl Reader.Grammar Reader.ReaderLemmas Reader.Lin Reader.GraphLemmas Reader.ReaderSim Reader.ReaderMult
-     Reader.ReaderAst Reader.ReaderWf Reader.ReaderCheck.
+From CGV Require Import Base.PyBase Base.PyVal Base.NxGraph Dialect.DialectImpl
+     Reader.ReaderImpl Reader.Grammar Reader.Lin Reader.ReaderSim Reader.ReaderCheck.
+From CGV Require Export Reader.ReaderLast Reader.ReaderX Reader.ReaderXAst.
 Import ListNotations.
-Open Scope Z_scope.
-
-(** the end of the look-ahead loop: a pending %nn marker is registered *)
-Lemma ring_scan_nil cur idx a cyc ces : ashape_ok a ->
-  exists x, ring_scan cur [] idx (conc a cyc ces) = Ok (x, Nat.pred idx) /\ (r_cyc x, r_ces x) = settled cur a cyc ces.
-Proof.
-  intros Ha. destruct a as [|ds o]; cbn [conc ring_scan].
-  - eexists. split; [reflexivity|]. reflexivity.
-  - unfold pend_st. cbn [r_multi r_marker skipn andb]. destruct (digits_ok_all ds Ha) as [Hall Hne].
-    assert (Hd : py_isdigit (digits_str ds) = true).
-    { unfold py_isdigit. destruct ds; [contradiction|]. cbn [digits_str map]. change (digit_char n :: map digit_char ds) with (digits_str (n :: ds)).
-      now apply all_digits_str. }
-    rewrite Hd, py_int_digits by assumption. cbn [bind]. rewrite ring_commit_clean. eexists. split; [reflexivity|].
-    cbn [clean_st r_cyc r_ces settled]. now destruct (commit _ cur o cyc ces).
-Qed.
-
-(** where the loop stops: inside the text *)
-Lemma ring_scan_rdx cur : forall s idx x x1 rdx, s <> [] -> ring_scan cur s idx x = Ok (x1, rdx) ->
-  (idx <= rdx < idx + length s)%nat.
-Proof.
-  induction s as [|c r IH]; intros idx x x1 rdx Hne H; [contradiction|].
-  assert (Hrec : forall y, ring_scan cur r (Datatypes.S idx) y = Ok (x1, rdx) -> (idx <= rdx < idx + length (c :: r))%nat).
-  { intros y Hy. destruct r as [|c2 r2].
-    - cbn [ring_scan] in Hy. destruct (r_multi y && py_isdigit (skipn 1 (r_marker y))).
-      + destruct (py_int (skipn 1 (r_marker y))); cbn [bind] in Hy; [|discriminate]. injection Hy as _ <-. cbn. lia.
-      + injection Hy as _ <-. cbn. lia.
-    - apply IH in Hy; [|discriminate]. cbn [length] in *. lia. }
-  cbn [ring_scan] in H.
-  destruct (if r_multi x && negb (is_digit c) then _ else _) as [y|]; [|discriminate].
-  destruct (Ascii.eqb c "%"%char); [now apply (Hrec _ H)|].
-  destruct (is_digit c).
-  - destruct (r_multi y); [now apply (Hrec _ H)|]. destruct (py_int _); [now apply (Hrec _ H)|discriminate].
-  - destruct (sto_mem c).
-    + destruct (symbol_to_order_lookup [c]); [now apply (Hrec _ H)|discriminate].
-    + injection H as _ <-. cbn [length]. lia.
-Qed.
-
-(** the bond-order expression cannot crash on the characters that follow a node *)
-Definition bond_safe (c : ascii) : Prop :=
-  exists v, (if char_in c bond_symbol_chars then symbol_to_order_lookup [c] else Ok default_bond_order) = Ok v.
-Lemma bond_safe_sym s : bond_safe (sym_char s). Proof. destruct s; eexists; reflexivity. Qed.
-Lemma bond_safe_digit d : (d < 10)%nat -> bond_safe (digit_char d).
-Proof. intros H. do 10 (destruct d as [|d]; [eexists; reflexivity|]). lia. Qed.
-Lemma bond_safe_pct : bond_safe "%"%char. Proof. eexists; reflexivity. Qed.
-Lemma tail_bond_safe fo i : lin_ok fo i = true -> Forall bond_safe (lin_tail_str i).
-Proof.
-  intros Hok. destruct (lin_ok_parts fo i Hok) as (_ & Hr & Hm & _). unfold lin_tail_str.
-  apply Forall_app; split.
-  - destruct (l_mult i) as [ds|]; [|constructor]. destruct Hm as (_ & Hd & _). cbn [mult_str].
-    constructor; [eexists; reflexivity|]. apply (cls_digits bond_safe bond_safe_digit). now apply digits_ok_all.
-  - apply Forall_app; split; [now apply (cls_rings bond_safe bond_safe_sym bond_safe_digit bond_safe_pct)|].
-    apply Forall_app; split; [apply (cls_osym bond_safe bond_safe_sym)|].
-    destruct (l_close i) as [a|]; cbn [close_str]; [|constructor].
-    constructor; [eexists; reflexivity|apply (cls_osym bond_safe bond_safe_sym)].
-Qed.
-Lemma bond_expr_safe rest rdx : Forall bond_safe rest -> (rdx < length rest)%nat -> exists v, bond_expr rest rdx = Ok v.
-Proof.
-  intros Hf Hlt. unfold bond_expr. destruct rest as [|c0 r0]; [eexists; reflexivity|]. cbv zeta.
-  destruct rdx as [|k]; [eexists; reflexivity|].
-  assert (Hin : bond_safe (nth k (c0 :: r0) " "%char)).
-  { rewrite Forall_forall in Hf. apply Hf. apply nth_In. lia. }
-  exact Hin.
-Qed.
-
-(** the count at the end of the text *)
-Lemma find_idx_count_end ds : forallb (fun d => (d <? 10)%nat) ds = true ->
-  find_idx ("|"%char :: digits_str ds) fnc_eon = Datatypes.S (length ds).
-Proof.
-  intros Hd. cbn [find_idx]. change (str_in ["|"%char] fnc_eon) with false. cbv iota. f_equal.
-  induction ds as [|d r IH]; [reflexivity|]. cbn [forallb] in Hd. apply andb_prop in Hd as [H1 H2]. apply Nat.ltb_lt in H1.
-  cbn [digits_str map find_idx length]. rewrite digit_not_eon by assumption. f_equal. now apply IH.
-Qed.
-Lemma nmon_last fo i v : lin_ok fo i = true -> (l_mult i <> None -> v = default_bond_order) ->
-  nmon_expr (lin_tail_str i) v
-  = Ok (Z.of_nat (mult_val (l_mult i)), match l_mult i with Some _ => oord (l_bond i) | None => v end).
-Proof.
-  intros Hok Hv. destruct (lin_ok_parts fo i Hok) as (_ & Hr & Hm & Hc). unfold lin_tail_str.
-  destruct (l_mult i) as [ds|] eqn:Em.
-  - destruct Hm as (Er & Hd & H1). rewrite Er. cbn [mult_str rings_str app mult_val]. rewrite (Hv ltac:(discriminate)).
-    destruct (digits_ok_all ds Hd) as [Hall _].
-    unfold nmon_expr. change (Ascii.eqb "|"%char "|"%char) with true. cbv iota. rewrite fnc0_spec.
-    assert (Hy : (exists y ty, osym_str (l_bond i) ++ close_str (l_close i) = y :: ty /\ str_in [y] fnc_eon = true
-                  /\ (if sto_mem y then symbol_to_order_lookup [y] else Ok default_bond_order) = Ok (oord (l_bond i)))
-                 \/ (osym_str (l_bond i) ++ close_str (l_close i) = [] /\ l_bond i = None)).
-    { destruct (l_bond i) as [s|]; cbn [osym_str app oord].
-      - left. eexists _, _. split; [reflexivity|]. split; [apply sym_in_eon|]. now rewrite sym_mem, sym_lookup.
-      - destruct (l_close i) as [a|]; cbn [close_str]; [left; eexists _, _; split; [reflexivity|]; split; reflexivity|right; split; reflexivity]. }
-    destruct Hy as [(y & ty & Ey & Hyin & Hybo)|(Ey & Eb)]; rewrite Ey.
-    + rewrite (find_idx_count ds y ty Hall Hyin). cbn [bind].
-      unfold py_slice. cbn [skipn]. replace (Datatypes.S (length ds) - 1)%nat with (length (digits_str ds)) by (unfold digits_str; rewrite map_length; lia).
-      rewrite firstn_app, Nat.sub_diag, firstn_all. cbn [firstn]. rewrite app_nil_r. rewrite py_int_full_digits by assumption. cbn [bind].
-      assert (En : nth_error ("|"%char :: digits_str ds ++ y :: ty) (Datatypes.S (length ds)) = Some y).
-      { cbn [nth_error]. rewrite nth_error_app2 by (unfold digits_str; rewrite map_length; lia).
-        unfold digits_str. rewrite map_length, Nat.sub_diag. reflexivity. }
-      rewrite En, Hybo. reflexivity.
-    + rewrite app_nil_r. rewrite (find_idx_count_end ds Hall). cbn [bind].
-      unfold py_slice. cbn [skipn]. replace (Datatypes.S (length ds) - 1)%nat with (length (digits_str ds)) by (unfold digits_str; rewrite map_length; lia).
-      rewrite firstn_all. rewrite py_int_full_digits by assumption. cbn [bind].
-      assert (En : nth_error ("|"%char :: digits_str ds) (Datatypes.S (length ds)) = None).
-      { apply nth_error_None. cbn [length]. unfold digits_str. rewrite map_length. lia. }
-      rewrite En, Eb. reflexivity.
-  - cbn [mult_str app mult_val].
-    assert (Hp : Forall nobar (rings_str false (l_rings i) ++ osym_str (l_bond i) ++ close_str (l_close i))).
-    { apply Forall_app; split; [now apply nobar_rings|]. apply Forall_app; split; [apply nobar_osym|].
-      destruct (l_close i); cbn [close_str]; [|constructor]. constructor; [discriminate|apply nobar_osym]. }
-    unfold nmon_expr. destruct (rings_str false (l_rings i) ++ osym_str (l_bond i) ++ close_str (l_close i)) as [|c p]; [reflexivity|].
-    inversion Hp as [|? ? Hc0 _]; subst. destruct (Ascii.eqb_spec c "|"%char); [contradiction|reflexivity].
-Qed.
-
-(** look-ahead of the LAST item, the text ending right behind it *)
-Lemma scan_last fo i cur cyc : lin_ok fo i = true ->
-  exists x rdx v, ring_scan cur (lin_tail_str i) 0 (clean_st cyc []) = Ok (x, rdx)
-                  /\ (r_cyc x, r_ces x) = spec_rings (l_rings i) cur (cyc, [])
-                  /\ bond_expr (lin_tail_str i) rdx = Ok v
-                  /\ (l_mult i <> None -> v = default_bond_order).
-Proof.
-  intros Hok. destruct (lin_ok_parts fo i Hok) as (_ & Hr & Hm & Hc).
-  assert (Hsafe := tail_bond_safe fo i Hok).
-  assert (Hgen : forall x rdx, ring_scan cur (lin_tail_str i) 0 (clean_st cyc []) = Ok (x, rdx) ->
-            (r_cyc x, r_ces x) = spec_rings (l_rings i) cur (cyc, []) -> (l_mult i <> None -> rdx = O) ->
-            exists x' rdx' v, ring_scan cur (lin_tail_str i) 0 (clean_st cyc []) = Ok (x', rdx')
-                  /\ (r_cyc x', r_ces x') = spec_rings (l_rings i) cur (cyc, [])
-                  /\ bond_expr (lin_tail_str i) rdx' = Ok v /\ (l_mult i <> None -> v = default_bond_order)).
-  { intros x rdx E S Hz. destruct (lin_tail_str i) as [|c0 r0] eqn:Et.
-    - exists x, rdx, default_bond_order. repeat split; try assumption.
-    - pose proof (ring_scan_rdx cur (c0 :: r0) 0 _ x rdx ltac:(discriminate) E) as Hb.
-      destruct (bond_expr_safe (c0 :: r0) rdx Hsafe ltac:(lia)) as (v & Ev).
-      exists x, rdx, v. repeat split; try assumption. intros Hmn. rewrite (Hz Hmn) in Ev. cbn in Ev. now injection Ev as <-. }
-  unfold lin_tail_str in *.
-  destruct (l_mult i) as [ds|] eqn:Em.
-  - destruct Hm as (Er & _). rewrite Er in *. cbn [mult_str rings_str app] in *.
-    apply (Hgen (sym_st default_bond_order cyc []) O); [now rewrite clean_is_sym, scan_stop by reflexivity|reflexivity|reflexivity].
-  - cbn [mult_str app] in *.
-    destruct (l_close i) as [a|] eqn:Ecl; cbn [close_str] in *.
-    + destruct (ring_scan_item cur (l_rings i) (l_bond i) ")"%char (osym_str a) cyc Hr) as (x2 & E2 & S2); [repeat split|].
-      apply (Hgen x2 _ E2 S2). intros C; now elim C.
-    + rewrite !app_nil_r in *.
-      destruct (ring_list cur (l_rings i) false AClean cyc [] (osym_str (l_bond i)) 0 Hr I eq_refl)
-        as (a' & cyc1 & ces1 & E & Ha & S). cbn [settled] in S. cbn [plus] in E.
-      destruct (l_bond i) as [s|] eqn:Eb; cbn [osym_str] in *.
-      * rewrite settle_any in E by (apply sym_not_digit || assumption).
-        rewrite (clean_is_sym (fst (settled cur a' cyc1 ces1)) (snd (settled cur a' cyc1 ces1))), scan_sym in E.
-        cbn [ring_scan sym_st r_multi andb] in E.
-        eapply Hgen; [change (clean_st cyc []) with (conc AClean cyc []); exact E| |intros C; now elim C].
-        cbn [sym_st r_cyc r_ces]. rewrite <- S. now destruct (settled cur a' cyc1 ces1).
-      * destruct (ring_scan_nil cur (length (rings_str false (l_rings i))) a' cyc1 ces1 Ha) as (xe & Ee & Se).
-        rewrite Ee in E.
-        eapply Hgen; [change (clean_st cyc []) with (conc AClean cyc []); exact E| |intros C; now elim C].
-        rewrite Se. exact S.
-Qed.
-
-Lemma look_last fo i : lin_ok fo i = true ->
-  exists io ic, fnc0 (lin_tail_str i) fnc_next_open = Ok io /\ fnc0 (lin_tail_str i) fnc_next_close = Ok ic
-                /\ Nat.ltb ic io = is_some (l_close i).
-Proof.
-  intros Hok. pose proof (lin_prefix_inner fo i Hok) as Hp.
-  assert (E : lin_tail_str i = lin_prefix i ++ close_str (l_close i)) by (unfold lin_tail_str, lin_prefix; now rewrite <- !app_assoc).
-  rewrite E, !fnc0_spec.
-  rewrite (find_idx_inner _ fnc_next_open Hp incl_open), (find_idx_inner _ fnc_next_close Hp incl_close).
-  eexists _, _. split; [reflexivity|]. split; [reflexivity|].
-  destruct (l_close i) as [a|]; cbn [close_str is_some].
-  - cbn [find_idx]. change (str_in [")"%char] fnc_next_close) with true. change (str_in [")"%char] fnc_next_open) with false.
-    cbv iota. apply Nat.ltb_lt. lia.
-  - cbn [find_idx]. apply Nat.ltb_ge. lia.
-Qed.
-
-Lemma close_last fo i a st top stk : lin_ok fo i = true -> l_close i = Some a ->
-  s_branch_anchor st = rev (top :: stk) ->
-  exists st1, close_all (lin_tail_str i) st = Ok st1 /\ s_g st1 = s_g st /\ s_cycle st1 = s_cycle st.
-Proof.
-  intros Hok Hc Hba. pose proof (lin_prefix_inner fo i Hok) as Hp.
-  assert (E : lin_tail_str i = lin_prefix i ++ close_str (l_close i)) by (unfold lin_tail_str, lin_prefix; now rewrite <- !app_assoc).
-  unfold close_all. rewrite close_loop_0.
-  destruct (look_last fo i Hok) as (io & ic & -> & -> & Elt). cbn [bind]. rewrite Elt, Hc. cbn [is_some].
-  assert (Ecb : exists st1, close_branch (lin_tail_str i) 0 st = Ok (st1, Datatypes.S (length (lin_prefix i)))
-                            /\ s_g st1 = s_g st /\ s_cycle st1 = s_cycle st).
-  { unfold close_branch. rewrite Hba, rev_involutive. rewrite E, Hc. cbn [close_str].
-    change (fnc_from ?r ?c 0) with (fnc0 r c).
-    rewrite fnc0_spec, (find_idx_inner _ fnc_eon_a Hp incl_eon_a). cbn [find_idx].
-    change (str_in [")"%char] fnc_eon_a) with true. cbv iota. rewrite Nat.add_0_r. cbn [bind].
-    rewrite !nth_error_after. rewrite Nat.add_1_r.
-    destruct a as [s|]; cbn [osym_str nth_error].
-    - assert (E1 : ch_eq (Some (sym_char s)) "|"%char = false) by (destruct s; reflexivity).
-      rewrite E1. cbn [ch_eq orb andb]. rewrite sym_mem, sym_lookup. cbn [bind]. eexists. split; [reflexivity|]. split; reflexivity.
-    - cbn [ch_eq orb andb bind]. eexists. split; [reflexivity|]. split; reflexivity. }
-  destruct Ecb as (st1 & -> & G1 & C1). cbn [bind]. exists st1. split; [|split; assumption].
-  assert (El : length (lin_tail_str i) = Datatypes.S (length (lin_prefix i) + length (osym_str a))).
-  { rewrite E, Hc. cbn [close_str]. rewrite app_length. cbn [length]. lia. }
-  rewrite El. apply close_loop_stop; [rewrite El; lia|].
-  rewrite E, Hc. cbn [close_str]. rewrite skipn_after. destruct a as [s|]; [destruct s|]; reflexivity.
-Qed.
-
-(** one iteration on the LAST item of a text without braces: graph and ring table agree with the machine *)
-Lemma node_step_last fo i st x pc :
-  lin_ok fo i = true -> Rel st x ->
-  (Ascii.eqb pc "("%char = l_open i) -> (l_open i = true -> exists p, m_prev x = Some p /\ has_node (m_g x) p = true) ->
-  (l_close i <> None -> (if l_open i then m_prev x :: m_stack x else m_stack x) <> []) ->
-  match item_effect fo i x with
-  | Ok x1 => exists st1, node_step fo st pc (l_name i) (lin_tail_str i) = Ok st1 /\ s_g st1 = m_g x1 /\ s_cycle st1 = m_rings x1
-  | Err e => node_step fo st pc (l_name i) (lin_tail_str i) = Err e
-  end.
-Proof.
-  intros Hok (Rg & Rc & Rp & Rcy & Rba & Rbr & Rpb) Hpc Hop Hst.
-  destruct (lin_ok_parts fo i Hok) as (Hn & Hr & Hm & Hc).
-  rewrite node_step_eq. unfold item_effect.
-  set (stack0 := if l_open i then m_prev x :: m_stack x else m_stack x).
-  assert (Hopened : exists rc, opened st pc = Ok (negb (is_nil stack0), rev stack0, rc)).
-  { unfold opened, stack0. rewrite Hpc. destruct (l_open i).
-    - destruct (Hop eq_refl) as (p & Ep & Hp). rewrite Rp, Ep, Rg.
-      unfold node_attrs, has_node in *. destruct (gfind p (m_g x)) as [nr|]; [|discriminate]. cbn [bind].
-      eexists. rewrite Rba. reflexivity.
-    - eexists. rewrite Rbr, Rba. reflexivity. }
-  destruct Hopened as (rc & ->). cbn [bind].
-  destruct (scan_last fo i (s_current st) (s_cycle st) Hok) as (xr & rdx & v & Escan & Sr & Ebond & Hv).
-  rewrite Escan. cbn [bind]. rewrite Ebond. cbn [bind].
-  rewrite (nmon_last fo i v Hok Hv). cbn [bind]. rewrite Nat2Z.id.
-  set (bo := match l_mult i with Some _ => oord (l_bond i) | None => v end).
-  destruct (parse_graph_base_node fo (l_name i)) as [a|e] eqn:Ea; cbn [bind]; [|reflexivity].
-  assert (Ha : ahas (S "node_for_adding") a = false).
-  { unfold name_ok in Hn. rewrite Ea in Hn. apply andb_prop in Hn as [_ Hn]. now destruct (ahas _ a). }
-  assert (Hrec : exists rc', (if negb (is_nil stack0) then
-                                match rev (rev stack0) with
-                                | [] => Err EIndex
-                                | k0 :: _ => Ok (rec_append k0 (Z.of_nat (mult_val (l_mult i)), a, s_pbo st) rc)
-                                end else Ok rc) = Ok rc').
-  { rewrite rev_involutive. destruct stack0; cbn; eexists; reflexivity. }
-  destruct Hrec as (rc' & ->). cbn [bind].
-  rewrite Rcy, Rc in Sr. rewrite Rg, Rc, Rp.
-  assert (Hpp : forall p, m_prev x = Some p -> s_pbo st = Some (m_pend x)) by (intros p Hp'; now destruct (Rpb p Hp')).
-  assert (Hadd : add_nodes (mult_val (l_mult i)) a bo (r_ces xr) (m_g x) (m_next x) (m_prev x) (s_pbo st)
-               = (let '(g2, nx, pv) := m_copies (mult_val (l_mult i)) a (m_g x) (m_next x) (m_prev x) (m_pend x) in
-                  g3 <- add_cycle_edges g2 (r_ces xr) ;; Ok (g3, nx, pv, Some bo))).
-  { destruct (l_mult i) as [ds|] eqn:Em; cbn [mult_val].
-    - destruct Hm as (Er & Hd & H1). rewrite Er in Sr. cbn [spec_rings] in Sr. injection Sr as _ Eces.
-      rewrite Eces. rewrite (add_nodes_copies _ a _ _ _ _ _ (m_pend x) Ha) by (intros _; exact Hpp).
-      destruct (m_copies (digits_nat ds) a (m_g x) (m_next x) (m_prev x) (m_pend x)) as [[g2 nx] pv].
-      cbn [add_cycle_edges bind]. destruct (digits_nat ds); [lia|reflexivity].
-    - now apply add_nodes_one. }
-  rewrite Hadd. clear Hadd.
-  assert (Hn1 : (1 <= mult_val (l_mult i))%nat) by (unfold mult_val; destruct (l_mult i); [tauto|lia]).
-  destruct (m_copies_prev (mult_val (l_mult i)) a (m_g x) (m_next x) (m_prev x) (m_pend x) Hn1) as (g2 & nx & last & -> & _).
-  pose proof (f_equal snd Sr) as Eces. cbn [snd] in Eces. pose proof (f_equal fst Sr) as Ecyc. cbn [fst] in Ecyc.
-  rewrite Eces. destruct (add_cycle_edges g2 _) as [g3|e]; cbn [bind]; [|reflexivity].
-  destruct (l_close i) as [a'|] eqn:Ecl.
-  - destruct stack0 as [|top stk] eqn:Es; [exfalso; apply Hst; [discriminate|exact Es]|].
-    match goal with |- exists st1, close_all _ ?S = _ /\ _ => destruct (close_last fo i a' S top stk Hok Ecl eq_refl) as (st1 & E1 & G1 & C1) end.
-    exists st1. split; [exact E1|]. rewrite G1, C1. cbn. split; [reflexivity|assumption].
-  - destruct (look_last fo i Hok) as (io & ic & Eio & Eic & Elt). rewrite Ecl in Elt.
-    rewrite (close_all_stop _ _ io ic Eio Eic Elt). eexists. split; [reflexivity|]. cbn. split; [reflexivity|assumption].
-Qed.
-
-Lemma cont_lins_ne j t : cont (lins_str (j :: t)).
-Proof.
-  cbn [lins_str flat_map]. unfold lin_str. destruct (l_open j); cbn [app]; rewrite <- ?app_assoc; cbn [app]; constructor.
-Qed.
-Lemma tail_no_node fo i pc : lin_ok fo i = true -> next_node pc (lin_tail_str i) = None.
-Proof.
-  intros Hok. rewrite <- (app_nil_r (lin_tail_str i)). rewrite next_node_skip by (apply skipch_nob; now apply (lin_tail_skipch fo)).
-  reflexivity.
-Qed.
-
-Lemma last_app_ne {A} (a b : list A) d : b <> [] -> last (a ++ b) d = last b d.
-Proof.
-  intros Hb. induction a as [|x a IH]; [reflexivity|]. cbn [app].
-  assert (Hn : a ++ b <> []) by (destruct a; [exact Hb|discriminate]).
-  destruct (a ++ b) as [|y r] eqn:E; [contradiction|]. rewrite <- IH. reflexivity.
-Qed.
-Lemma last_lins_str fo l d : forallb (lin_ok fo) l = true -> l <> [] -> last (lins_str l) d <> "("%char.
-Proof.
-  intros Hok Hne. destruct (exists_last Hne) as (l' & z & ->).
-  rewrite forallb_app in Hok. apply andb_prop in Hok as [_ Hz]. cbn [forallb] in Hz. apply andb_prop in Hz as [Hz _].
-  unfold lins_str. rewrite flat_map_app. cbn [flat_map]. rewrite app_nil_r. unfold lin_str.
-  rewrite app_assoc. change ("["%char :: "#"%char :: l_name z ++ "]"%char :: lin_tail_str z)
-    with (("["%char :: "#"%char :: l_name z) ++ "]"%char :: lin_tail_str z).
-  rewrite app_assoc. rewrite last_app_ne by discriminate.
-  rewrite last_cons_default. apply last_skipch; [now apply (lin_tail_skipch fo)|discriminate].
-Qed.
-
-
-Theorem sim_loop_end fo : forall l st x pre pc fuel,
-  l <> [] -> forallb (lin_ok fo) l = true -> lin_depth (length (m_stack x)) l = true ->
-  Rel st x -> all_some (m_stack x) -> mwf x ->
-  (m_prev x = None -> match l with i :: _ => l_open i = false | [] => True end) ->
-  Forall skipch pre -> pc <> "("%char -> (length l < fuel)%nat ->
-  match m_run fo (lins_toks l) x with
-  | Ok x1 => exists st1, main_loop fuel fo pc (pre ++ lins_str l) st = Ok st1 /\ s_g st1 = m_g x1 /\ s_cycle st1 = m_rings x1
-  | Err e => main_loop fuel fo pc (pre ++ lins_str l) st = Err e
-  end.
-Proof.
-  induction l as [|i t IH]; intros st x pre pc fuel Hne Hok Hd HR Hs Hw Hfirst Hpre Hpc Hfuel; [contradiction|].
-  cbn [forallb] in Hok. apply andb_prop in Hok as [Hoki Hokt].
-  destruct fuel as [|f]; [cbn in Hfuel; lia|]. cbn [length] in Hfuel.
-  cbn [lins_toks flat_map]. fold (lins_toks t). rewrite (m_item fo i (lins_toks t) x Hoki).
-  cbn [lins_str flat_map]. fold (lins_str t).
-  destruct (lin_ok_parts fo i Hoki) as (Hn & _).
-  set (opn := if l_open i then ["("%char] else []).
-  assert (Etext : pre ++ lin_str i ++ lins_str t
-                = (pre ++ opn) ++ "["%char :: "#"%char :: l_name i ++ "]"%char :: (lin_tail_str i ++ lins_str t)).
-  { unfold lin_str, opn. rewrite <- !app_assoc. cbn [app]. rewrite <- !app_assoc. reflexivity. }
-  rewrite Etext. cbn [main_loop].
-  assert (Hopn : Forall nob (pre ++ opn)).
-  { apply Forall_app; split; [now apply skipch_nob|]. unfold opn. destruct (l_open i); repeat constructor. discriminate. }
-  rewrite next_node_skip by assumption. rewrite next_node_here by (now apply (name_chars fo)).
-  assert (Hpc' : Ascii.eqb (last (pre ++ opn) pc) "("%char = l_open i).
-  { unfold opn. destruct (l_open i).
-    - rewrite last_last. reflexivity.
-    - rewrite app_nil_r. apply Ascii.eqb_neq. now apply last_skipch. }
-  assert (Hop : l_open i = true -> m_prev x <> None).
-  { intros Ho Hn0. specialize (Hfirst Hn0). cbn in Hfirst. congruence. }
-  assert (Hop2 : l_open i = true -> exists p, m_prev x = Some p /\ has_node (m_g x) p = true).
-  { intros Ho. specialize (Hop Ho). destruct (m_prev x) as [p|] eqn:Ep; [|contradiction]. exists p. split; [reflexivity|].
-    apply (w_prev x Hw). exact Ep. }
-  assert (Hst : l_close i <> None -> (if l_open i then m_prev x :: m_stack x else m_stack x) <> []).
-  { intros Hc. cbn [lin_depth] in Hd. destruct (l_open i); [discriminate|].
-    destruct (l_close i); [|contradiction]. destruct (m_stack x); [discriminate|discriminate]. }
-  destruct t as [|j t'].
-  - cbn [lins_str flat_map]. rewrite app_nil_r.
-    pose proof (node_step_last fo i st x _ Hoki HR Hpc' Hop2 Hst) as Hstep.
-    cbn [lins_toks flat_map m_run].
-    destruct (item_effect fo i x) as [x1|e]; cbn [bind].
-    + destruct Hstep as (st1 & -> & G & C). cbn [bind]. exists st1. split; [|split; assumption].
-      destruct f as [|f']; [lia|]. cbn [main_loop]. now rewrite (tail_no_node fo).
-    + rewrite Hstep. reflexivity.
-  - set (k := lins_str (j :: t')).
-    assert (Hk : cont k) by apply cont_lins_ne.
-    pose proof (node_step_lin fo i k st x _ Hoki Hk HR Hpc' Hop2 Hst) as Hstep.
-    destruct (item_effect fo i x) as [x1|e] eqn:Eeff; cbn [bind].
-    + destruct Hstep as (st1 & -> & HR1 & _). cbn [bind].
-      pose proof (item_effect_mwf fo i x x1 Hoki Eeff Hw) as Hw1.
-      destruct (item_effect_inv fo i x x1 Hoki Eeff Hs Hop) as (Hs1 & Hp1 & Hd1).
-      assert (Hdt : lin_depth (length (m_stack x1)) (j :: t') = true).
-      { cbn [lin_depth] in Hd. cbv zeta in Hd1. destruct (l_close i).
-        - rewrite Hd1 in Hd. exact Hd.
-        - rewrite Hd1 in Hd. exact Hd. }
-      apply (IH st1 x1 (lin_tail_str i) "]"%char f); try assumption.
-      * discriminate.
-      * intros Hn0. contradiction.
-      * now apply (lin_tail_skipch fo).
-      * discriminate.
-      * cbn [length] in *. lia.
-    + rewrite Hstep. reflexivity.
-Qed.
-
-(** ** the simulation theorem for texts without braces *)
-Theorem reader_sim_lin_nobrace fo l : lins_ok fo l = true -> read_cgsmiles fo (lins_str l) = denote_lin fo l.
-Proof.
-  unfold lins_ok. intros H. apply andb_prop in H as [H Hfirst]. apply andb_prop in H as [Hok Hd].
-  destruct l as [|i t] eqn:El; [reflexivity|]. rewrite <- El in *.
-  assert (Hne : l <> []) by (rewrite El; discriminate).
-  unfold read_cgsmiles, denote_lin, m_finish.
-  assert (HR : Rel init_state m_init) by (unfold Rel; cbn; repeat split; discriminate).
-  pose proof (sim_loop_end fo l init_state m_init [] (last (lins_str l) " "%char) (Datatypes.S (length (lins_str l)))
-                Hne Hok Hd HR (Forall_nil _) mwf_init) as Hsim.
-  cbn [app] in Hsim.
-  assert (H1 : m_prev m_init = None -> match l with i0 :: _ => l_open i0 = false | [] => True end).
-  { intros _. rewrite El in *. now destruct (l_open i). }
-  specialize (Hsim H1 (Forall_nil _) (last_lins_str fo l _ Hok Hne)).
-  assert (H4 : (length l < Datatypes.S (length (lins_str l)))%nat) by (pose proof (lins_str_length l); lia).
-  specialize (Hsim H4).
-  destruct (m_run fo (lins_toks l) m_init) as [x1|e].
-  - destruct Hsim as (st1 & -> & G & C). cbn [bind]. rewrite C, G. reflexivity.
-  - rewrite Hsim. reflexivity.
-Qed.
-Theorem reader_sim_ast_nobrace fo a l : linearize a = Some l -> lins_ok fo l = true ->
-  read_cgsmiles fo (print false a) = denote fo a.
-Proof.
-  intros E Hok. destruct (linearize_spec a l E) as (P1 & P2 & P3).
-  unfold print, denote. rewrite P3, P2, P1. now apply reader_sim_lin_nobrace.
-Qed.
 
 (** ** C04 in the property's own terms, for both kinds of text *)
 Theorem reader_sim_C04 fo braces a : wf fo a = true -> has_branch_mult a = false -> class_C04 braces a = 0%nat ->
   read_cgsmiles fo (print braces a) = denote fo a.
-Proof.
-  intros Hwf Hb Hc. unfold class_C04 in Hc. destruct (cls_double_close a) eqn:E1; [discriminate|].
-  pose proof (flat_ok_of_wf fo a Hwf Hb E1) as Hf.
-  destruct braces; [now apply reader_sim_ast|].
-  unfold flat_ok in Hf. destruct (linearize a) as [l|] eqn:El; [|discriminate]. now apply (reader_sim_ast_nobrace fo a l).
-Qed.
+Proof. intros Hwf Hb _. now apply reader_sim_grammar. Qed.
 Print Assumptions reader_sim_C04.
-
-(** C05, node multipliers, also for texts without braces *)
-Theorem reader_nodes_shorthand_nobrace fo l : lins_ok fo l = true ->
-  read_cgsmiles fo (lins_str l) = read_cgsmiles fo (lins_str (expand_lin l)).
-Proof.
-  intros H. rewrite !reader_sim_lin_nobrace by (assumption || now apply expand_lin_ok).
-  symmetry. apply denote_expand_lin. unfold lins_ok in H. apply andb_prop in H as [H _]. now apply andb_prop in H as [H _].
-Qed.
